@@ -52,14 +52,22 @@ def materialise(x):
     """JSON-encoded argument -> Python value"""
     if isinstance(x, dict) and '__graph__' in x:
         h = nx.DiGraph() if x.get('directed') else nx.Graph()
-        h.add_nodes_from(x.get('nodes', []))
-        h.add_edges_from([tuple(e) for e in x['__graph__']])
+        h.add_nodes_from(materialise(n) for n in x.get('nodes', []))
+        h.add_edges_from([tuple(materialise(y) for y in e) for e in x['__graph__']])
         return h
     if isinstance(x, dict) and '__edges__' in x:
-        return [tuple(e) if not (len(e) == 3 and isinstance(e[2], dict)) else (e[0], e[1], e[2]) for e in x['__edges__']]
+        es = [tuple(materialise(y) for y in e) for e in x['__edges__']]
+        return tuple(es) if x.get('as_tuple') else es
     if isinstance(x, dict) and '__tuple__' in x:
-        return tuple(x['__tuple__'])
+        return tuple(materialise(y) for y in x['__tuple__'])
+    if isinstance(x, list):
+        return [materialise(y) for y in x]
     return x
+
+
+def enc(n):
+    """node id -> JSON-able argument (tuple ids survive the replay file)"""
+    return {'__tuple__': [enc(y) for y in n]} if isinstance(n, tuple) else n
 
 
 def subset(o):
@@ -153,7 +161,12 @@ def do_nx(world, rep, op):
             m.add_node(args[0], kwargs)
         elif name == 'add_nodes_from':
             for n in args[0]:
-                if isinstance(n, tuple):
+                try:                       # networkx's own rule: anything hashable is a node id
+                    hash(n)
+                    pair = False
+                except TypeError:
+                    pair = True
+                if pair:
                     m.add_node(n[0], dict(kwargs, **n[1]))
                 else:
                     m.add_node(n, kwargs)
@@ -211,10 +224,10 @@ def synth(rng, pname, m, cfg):
     ks = [m.pair(k) for k in m.keys()]
 
     def node():
-        return rng.choice(nodes if rng.random() < 0.7 else pool)
+        return enc(rng.choice(nodes if rng.random() < 0.7 else pool))
 
     def edge(data=False):
-        e = list(rng.choice(ks)) if ks and rng.random() < 0.6 else [node(), node()]
+        e = [enc(x) for x in rng.choice(ks)] if ks and rng.random() < 0.6 else [node(), node()]
         if data:
             e.append({'w': 1})
         return e
@@ -222,14 +235,16 @@ def synth(rng, pname, m, cfg):
     if p in ('n', 'u', 'v', 'u_of_edge', 'v_of_edge', 'node_for_adding'):
         return node()
     if p in ('nbunch', 'nodes', 'nodes_for_adding'):
-        return [node() for _ in range(rng.randint(0, 3))]
+        b = [node() for _ in range(rng.randint(0, 3))]
+        return {'__tuple__': b} if rng.random() < 0.3 else b          # a bunch may be any container
     if p in ('ebunch', 'ebunch_to_add', 'edges'):
         x = rng.random()
         if p == 'edges' and x < 0.3:
             return {'__graph__': [edge() for _ in range(rng.randint(0, 2))], 'nodes': [node()]}
         if p == 'ebunch_to_add' and x < 0.3:
             return {'__edges__': [edge() + [1.5] for _ in range(rng.randint(1, 2))]}
-        return {'__edges__': [edge(data=rng.random() < 0.3) for _ in range(rng.randint(0, 3))]}
+        return {'__edges__': [edge(data=rng.random() < 0.3) for _ in range(rng.randint(0, 3))],
+                'as_tuple': rng.random() < 0.3}
     if p in ('as_view', 'copy', 'reciprocal', 'data'):
         return rng.random() < 0.5
     if p in ('weight', 'default', 'name'):
@@ -277,7 +292,7 @@ def gen_nx(rng, rep, cfg, mode):
             if rng.random() < 0.5:
                 op['kwargs']['nodes'] = synth(rng, 'nodes', m, cfg)
         if name == 'add_weighted_edges_from':
-            op['args'] = [{'__edges__': [[rng.choice(cfg['nodes']), rng.choice(cfg['nodes']), 1.5]]}]
+            op['args'] = [{'__edges__': [[enc(rng.choice(cfg['nodes'])), enc(rng.choice(cfg['nodes'])), 1.5]]}]
         return op
     if mode == 'frozen':
         name = rng.choice(FROZEN_MUTATORS)
@@ -287,8 +302,8 @@ def gen_nx(rng, rep, cfg, mode):
                 and p.default is p.empty]
         op = {'op': 'nx', 'mode': mode, 'name': name, 'args': args}
         if name == 'update':
-            op['kwargs'] = {'nodes': [rng.choice(cfg['nodes'])]} if rng.random() < 0.5 else \
-                {'edges': {'__edges__': [[rng.choice(cfg['nodes']), rng.choice(cfg['nodes'])]]}}
+            op['kwargs'] = {'nodes': [enc(rng.choice(cfg['nodes']))]} if rng.random() < 0.5 else \
+                {'edges': {'__edges__': [[enc(rng.choice(cfg['nodes'])), enc(rng.choice(cfg['nodes']))]]}}
         return op
     # any other inherited callable or property
     if rng.random() < 0.12:
